@@ -38,6 +38,9 @@ func c11Universe(seed int64, size int) []any {
 		bigS("9223372036854775808"), bigS("9223372036854775809"), bigS("-9223372036854775809"), bigS("-9223372036854775810"), bigS("100000000000000000000000000000"), bigS("100000000000000000000000000001"),
 		big.NewInt(1), big.NewInt(0), big.NewInt(1 << 53), big.NewInt(1<<53 + 1),
 		json.Number("1"), json.Number("1.0"), json.Number("1.5"), json.Number("9007199254740993"), json.Number("100000000000000000000000000000"), json.Number("1e2"), json.Number("100"), json.Number("-0"), json.Number("0.5"), json.Number("9223372036854775808"),
+		// integer and decimal literals whose text order differs from their numeric order, zero spelled every way
+		json.Number("0"), json.Number("0.0"), json.Number("-0.0"), json.Number("0e0"), json.Number("-1"), json.Number("-1.0"), json.Number("2"), json.Number("9"), json.Number("10"), json.Number("99"), json.Number("-9"), json.Number("-10"), json.Number("-100"),
+		json.Number("1E2"), json.Number("10e1"), json.Number("0.50"), json.Number("9007199254740992"), json.Number("-9223372036854775808"), json.Number("-9223372036854775809"), json.Number("12345678901234567890"), json.Number("-12345678901234567890"), json.Number("123456789012345678901"), json.Number("99999999999999999999"),
 		"", "a", "A", "aa", "ab", "b", "a\x00", "é", "z", "ÿ", "￿", "\U00010000", "\U0001F600", "日本", "日", "0", "1", "10", "9", " ", "a b", "\u007f", "~",
 		A{}, A{nil}, A{false}, A{0}, A{0.0}, A{1}, A{1, 2}, A{1, 2, 3}, A{1, 3}, A{2}, A{A{}}, A{A{}, A{}}, A{A{1}}, A{O{}}, A{"a"}, A{"a", "b"}, A{nil, nil}, A{1.0, 2}, A{bigS("9223372036854775808")}, A{1, A{2, A{3}}}, A{1, A{2, A{4}}}, A{true}, A{O{"a": 1}},
 		O{}, O{"a": nil}, O{"a": 0}, O{"a": 1}, O{"a": 1.0}, O{"a": 2}, O{"b": 0}, O{"a": 1, "b": 2}, O{"a": 1, "b": 3}, O{"a": 2, "b": 0}, O{"a": 0, "c": 0}, O{"b": 1, "c": 0}, O{"": 1}, O{"A": 1}, O{"é": 1}, O{"￿": 1}, O{"\U00010000": 1},
@@ -71,7 +74,7 @@ var (
 
 func c11Init(c *run.Ctx) {
 	c11Once.Do(func() {
-		c11U = c11Universe(c.Seed, c.N(200, 420))
+		c11U = c11Universe(c.Seed, c.N(225, 440))
 		n := len(c11U)
 		c11M = make([][]int8, n)
 		for i := range c11M {
@@ -490,7 +493,15 @@ func sameJSONKeyOrder(text string, keys []string) bool {
 var c11Keys = []string{"", "a", "A", "aa", "ab", "b", "B", "é", "z", "ÿ", "￿", "\U00010000", "\U0001F600", "日", "0", "10", "9", " ", "~", "\u007f", "퟿", "", "a\x00", "_", "Z"}
 
 func c11Array(r *rand.Rand, U []any, keyed bool) []any {
+	// most sorting routines switch algorithm with the length (insertion sort up to a dozen elements, then blocks/merges):
+	// a quarter of the arrays are longer than that, a few much longer
 	n := r.IntN(13)
+	switch r.IntN(16) {
+	case 0, 1, 2, 3:
+		n = 13 + r.IntN(28)
+	case 4:
+		n = 41 + r.IntN(260)
+	}
 	arr := make([]any, n)
 	mode := r.IntN(4)
 	if keyed {
@@ -501,12 +512,12 @@ func c11Array(r *rand.Rand, U []any, keyed bool) []any {
 		case 0: // universe values with duplicates
 			arr[i] = U[r.IntN(len(U))]
 		case 1: // few distinct values, many duplicates, distinguishable equal numbers
-			arr[i] = []any{1, 1.0, big.NewInt(1), json.Number("1"), json.Number("1.0"), 2, 2.0, 0, math.Copysign(0, -1), "a", nil, A{1}, A{1.0}}[r.IntN(13)]
+			arr[i] = []any{1, 1.0, big.NewInt(1), json.Number("1"), json.Number("1.0"), 2, 2.0, 0, math.Copysign(0, -1), "a", nil, A{1}, A{1.0}, json.Number("0"), json.Number("-0"), json.Number("0.0"), json.Number("1.00"), json.Number("2")}[r.IntN(18)]
 		case 2: // keyed objects (stability witnesses)
 			if r.IntN(4) == 0 {
 				arr[i] = O{"a": U[r.IntN(len(U))], "t": i}
 			} else {
-				arr[i] = O{"a": []any{1, 1.0, 2, "x", nil, A{1}, json.Number("2"), false}[r.IntN(8)], "t": i}
+				arr[i] = O{"a": []any{1, 1.0, 2, "x", nil, A{1}, json.Number("2"), false, json.Number("0"), json.Number("-0")}[r.IntN(10)], "t": i}
 			}
 		default:
 			arr[i] = gen.RandValue(r, 2)
